@@ -13,6 +13,7 @@ import (
 	"path/filepath"
 	"runtime/debug"
 	"strings"
+	"sync"
 	"testing"
 	"time"
 
@@ -133,6 +134,9 @@ func genC13(r *sim.Rng, tier string) any {
 		op := WOp{Op: c13Ops[r.Intn(len(c13Ops))]}
 		if p.Slots == "real" && r.Bool(0.6) {
 			op.Op = []string{"listslots", "readslot", "attestslot"}[r.Intn(3)]
+		}
+		if p.Slots == "real" && !p.Remote && r.Bool(0.02) {
+			op.Op = "slotpair"
 		}
 		op.KeyKind = keys.AllKinds[r.Intn(len(keys.AllKinds))]
 		op.KeyLabel = fmt.Sprintf("c13-%d", r.Intn(3))
@@ -308,6 +312,7 @@ func sessionC13(t *testing.T, raw json.RawMessage) *sim.Outcome {
 	var served yubiagent.YubiAgent = st
 	var pivLog string
 	setPiv := func(string, int) {}
+	setDelay := func(string) {}
 	if p.Slots == "real" {
 		dir, err := os.MkdirTemp(tmpRoot(), "piv-")
 		if err != nil {
@@ -332,8 +337,17 @@ func sessionC13(t *testing.T, raw json.RawMessage) *sim.Outcome {
 			pemBytes = append(append([]byte("Certificate for the slot:\n\n"), pemBytes...), []byte("\n\n  \n")...)
 		}
 		os.WriteFile(certFile, pemBytes, 0o644)
-		script := fmt.Sprintf("#!/bin/sh\necho \"$@\" >> %s\ncase \"$2\" in\n status) cat %s >&2; cat %s; exit $(cat %s);;\n read-certificate|attest) if [ \"$4\" = \"9a\" ] || [ \"$4\" = \"9c\" ]; then cat %s; exit 0; else echo 'no such slot' >&2; exit 1; fi;;\nesac\nexit 2\n",
-			pivLog, errFile, outFile, exitFile, certFile)
+		attestFile := filepath.Join(dir, "attest.pem")
+		attBytes := pem.EncodeToMemory(&pem.Block{Type: "CERTIFICATE", Bytes: attestCertDER()})
+		if p.PEMNoise {
+			attBytes = append(append([]byte("Attestation for the slot:\n\n"), attBytes...), []byte("\n\n  \n")...)
+		}
+		os.WriteFile(attestFile, attBytes, 0o644)
+		delayFile := filepath.Join(dir, "delay")
+		os.WriteFile(delayFile, []byte("0"), 0o644)
+		setDelay = func(d string) { os.WriteFile(delayFile, []byte(d), 0o644) }
+		script := fmt.Sprintf("#!/bin/sh\necho \"$@\" >> %s\ncase \"$2\" in\n status) cat %s >&2; cat %s; exit $(cat %s);;\n read-certificate|attest) d=$(cat %s); [ \"$d\" != 0 ] && sleep $d; if [ \"$4\" = \"9a\" ] || [ \"$4\" = \"9c\" ]; then if [ \"$2\" = attest ]; then cat %s; else cat %s; fi; exit 0; else echo 'no such slot' >&2; exit 1; fi;;\nesac\nexit 2\n",
+			pivLog, errFile, outFile, exitFile, delayFile, attestFile, certFile)
 		if err := os.WriteFile(tool, []byte(script), 0o755); err != nil {
 			o.Fail("harness.tmp", "tool", 0, "%v", err)
 			return o
@@ -375,6 +389,66 @@ func sessionC13(t *testing.T, raw json.RawMessage) *sim.Outcome {
 			p.PivOutput, p.PivExit = op.Comment, op.Code
 			setPiv(p.PivOutput, p.PivExit)
 			o.Probe("piv_tool_output_changed_between_calls")
+			continue
+		}
+		if op.Op == "slotpair" {
+			// two clients on two connections of the same server ask for the certificate and for the attestation of one
+			// slot at the same time (the tool takes a moment: the two invocations overlap); each gets its own answer
+			if p.Slots != "real" || p.Remote {
+				continue
+			}
+			a2, b2 := net.Pipe()
+			done2 := make(chan struct{})
+			go func() {
+				defer close(done2)
+				defer func() { recover(); b2.Close() }()
+				yubiagent.ServeAgent(served, b2)
+			}()
+			cli2, err2 := yubiagent.NewClientFromConn(a2)
+			if err2 != nil {
+				o.Fail("harness.setup", "client2", i, "%v", err2)
+				return o
+			}
+			setDelay("0.15")
+			var c1, c2 *x509.Certificate
+			var e1, e2 error
+			var wg sync.WaitGroup
+			wg.Add(2)
+			go func() {
+				defer wg.Done()
+				defer func() {
+					if r := recover(); r != nil {
+						e1 = fmt.Errorf("panic: %v", r)
+					}
+				}()
+				c1, e1 = cli.ReadSlot(op.Slot)
+			}()
+			go func() {
+				defer wg.Done()
+				defer func() {
+					if r := recover(); r != nil {
+						e2 = fmt.Errorf("panic: %v", r)
+					}
+				}()
+				c2, e2 = cli2.AttestSlot(op.Slot)
+			}()
+			wg.Wait()
+			setDelay("0")
+			a2.Close()
+			<-done2
+			o.Probe("slot_operations_in_parallel")
+			tag := fmt.Sprintf("op %d slotpair %s", i, op.Slot)
+			if op.Slot == "9a" || op.Slot == "9c" {
+				if e1 != nil || c1 == nil || !bytes.Equal(c1.Raw, testCertDER()) {
+					o.Fail("C13.slots", "parallel_read", i, "%s: ReadSlot (while AttestSlot ran on another connection): err=%v, want the slot's certificate", tag, e1)
+				}
+				if e2 != nil || c2 == nil || !bytes.Equal(c2.Raw, attestCertDER()) {
+					o.Fail("C13.slots", "parallel_attest", i, "%s: AttestSlot (while ReadSlot ran on another connection): err=%v, want the slot's attestation", tag, e2)
+				}
+			} else if e1 == nil || e2 == nil {
+				o.Fail("C13.slots", "slot_error_lost", i, "%s: the PIV tool failed for this slot but a caller got no error (read err=%v, attest err=%v)", tag, e1, e2)
+			}
+			sig = append(sig, "slotpair")
 			continue
 		}
 		nCalls := len(st.calls)
@@ -802,7 +876,11 @@ func (slotChecker) checkRealSlots(o *sim.Outcome, i int, tag string, op WOp, p *
 	case "readslot", "attestslot":
 		good := op.Slot == "9a" || op.Slot == "9c"
 		if good {
-			if cerr != nil || gotCert == nil || !bytes.Equal(gotCert.Raw, testCertDER()) {
+			wantDER := testCertDER()
+			if op.Op == "attestslot" {
+				wantDER = attestCertDER() // the attestation of a slot is another certificate than the slot's
+			}
+			if cerr != nil || gotCert == nil || !bytes.Equal(gotCert.Raw, wantDER) {
 				o.Fail("C13.slots", "slot_cert", i, "%s: slot %q: err=%v, want the tool's certificate", tag, op.Slot, cerr)
 			} else {
 				o.Probe("slot_cert_agrees")
